@@ -61,6 +61,13 @@ pub fn gen_swarm_case(seed: u64, idx: u64, uni: &UniCfg) -> Case {
     if !uni.no_openat2 && rng.chance(1, 3) {
         c.plan.eagain = Some((rng.below(4) as usize, *rng.pick(&[1usize, 2, 3, 8, 15, 16, 20])));
     }
+    // a quarter of the runs also meets transient faults (errnos of the per-call catalogue): the
+    // containment promise does not depend on every verification step succeeding
+    if rng.chance(1, 4) {
+        if let Some(s) = c.plan.seeded.as_mut() {
+            s.p_fault = *rng.pick(&[20u64, 50, 100]);
+        }
+    }
     c.extra = json!({"race_world": race});
     c
 }
